@@ -1547,10 +1547,13 @@ func (r *Resolvable) fieldNodeKindAllowsSeek(field *Field) bool {
 			return false
 		}
 
-		// Skip array if its item type is not an object kind.
-		if field.Value.(*Array).Item.NodeKind() != NodeKindObject {
-			// we could have a nested array,
-			// but we do not care for now
+		// Skip array if its innermost item type is not an object kind:
+		// a list of lists of objects can hold deferred fields as well.
+		item := field.Value.(*Array).Item
+		for item.NodeKind() == NodeKindArray {
+			item = item.(*Array).Item
+		}
+		if item.NodeKind() != NodeKindObject {
 			return false
 		}
 	}
